@@ -6,7 +6,7 @@
 (*   dirs : Seq([s, e]) (top-level directives), file : [s, e],                    *)
 (*   gaps : Seq(Seq(line class)) (text outside the directives, split in lines:    *)
 (*           "blank" | "comment" | "other"),                                      *)
-(*   err : [s, e, rendered]]                                                      *)
+(*   err : [s, e, rendered, foreign]]                                             *)
 EXTENDS Integers, Sequences, FiniteSets, Json, TLC
 Cases == ndJsonDeserialize("cases.ndjson")
 VARIABLES i, failed
@@ -15,7 +15,8 @@ Why(c) ==
   ELSE IF c.timedOut THEN "does-not-terminate"
   ELSE IF ~c.ok THEN
        (IF ~(0 <= c.err.s /\ c.err.s <= c.err.e /\ c.err.e <= c.len) THEN "error-position-outside-the-input"
-        ELSE IF ~c.err.rendered THEN "error-cannot-be-rendered" ELSE "ok")
+        ELSE IF ~c.err.rendered THEN "error-cannot-be-rendered"
+        ELSE IF c.err.foreign THEN "error-position-is-not-a-position-in-the-input" ELSE "ok")
   ELSE IF c.file.s # 0 \/ c.file.e # c.len THEN "file-range-is-not-the-whole-text"
   ELSE IF \E n \in 1..Len(c.nodes) : ~(0 <= c.nodes[n].s /\ c.nodes[n].s <= c.nodes[n].e /\ c.nodes[n].e <= c.len) THEN "range-outside-the-text"
   ELSE IF \E n \in 1..Len(c.nodes) : ~c.nodes[n].same THEN "element-text-is-not-the-parsed-text"
